@@ -8,24 +8,24 @@ EXTENDS Mtbl, Json, IOUtils, TLCExt
 
 Tr == ndJsonDeserialize(IOEnv.TRACE)
 
-VARIABLE l
-tvars == <<vars, l>>
+VARIABLES l, obase       \* obase: descriptors open at the first observation of the execution (-1 = none yet)
+tvars == <<vars, l, obase>>
 
 Ev == Tr[l]
 Is(e) == l <= Len(Tr) /\ Ev.e = e /\ l' = l + 1
 Has(f) == f \in DOMAIN Ev
 
 Intact == IF Has("intact") THEN Ev.intact ELSE TRUE
-TInit == Init /\ l = 1
+TInit == Init /\ l = 1 /\ obase = -1
 
 TReset == /\ Is("Reset")
           /\ disk' = <<>> /\ wr' = <<>> /\ rd' = <<>> /\ us' = <<>> /\ mg' = <<>> /\ so' = <<>>
-          /\ fs' = EmptyFs /\ it' = <<>> /\ pl' = <<>> /\ judge' = {}
+          /\ fs' = EmptyFs /\ it' = <<>> /\ pl' = <<>> /\ judge' = {} /\ obase' = -1
 \* {"e":"Judge","props":["C01",...]}: which properties this execution is judged for
 TJudge == Is("Judge") /\ judge' = {Ev.props[i] : i \in 1..Len(Ev.props)} /\ UNCHANGED <<disk, wr, rd, us, mg, so, fs, it, pl>>
 
 \* lines that carry no obligation for this specification (validated elsewhere or informational)
-Ignored == {"Note", "LeakCheck", "Spill", "MergeCall", "Exit", "PoolInit", "PoolDestroy", "Write"}
+Ignored == {"Note", "Spill", "MergeCall", "Exit", "Write", "Sched"}
 TIgnore == l <= Len(Tr) /\ Ev.e \in Ignored /\ l' = l + 1 /\ UNCHANGED vars
 
 TMkOther  == (Is("MkFile") \/ Is("Symlink") \/ Is("Mkdir")) /\ MkOther(Ev.path, IF Has("h") THEN Ev.h ELSE "")
@@ -76,15 +76,24 @@ TSAdd     == Is("SAdd") /\ SAdd(Ev.s, Ev.k, Ev.v, Ev.ok, Spills)
 TSIter    == Is("SIter") /\ SIter(Ev.s, Ev.i, Ev.null, Spills)
 TSWrite   == Is("SWrite") /\ SWrite(Ev.s, Ev.w, Ev.ok, Spills)
 TSDestroy == Is("SDestroy") /\ SDestroy(Ev.s)
-\* process-level observations are judged by the resource ledger (C18), not here
-TObs      == Is("Obs") /\ UNCHANGED vars
+\* process-level observations judged by the resource ledger (C18): open descriptors, mappings of test files, threads,
+\* visible temporary files after each step; LeakSanitizer's verdict once every object is destroyed
+TObs      == /\ Is("Obs")
+             /\ IF obase = -1 THEN obase' = Ev.fds
+                ELSE /\ obase' = obase
+                     /\ "C18" \in judge => LedgerOk(Ev.fds - obase, Ev.maps, Ev.threads, Ev.tmpfiles)
+             /\ UNCHANGED vars
+TLeak     == Is("LeakCheck") /\ ("C18" \in judge => (Quiescent /\ Ev.leaks = 0)) /\ UNCHANGED <<vars, obase>>
+TPoolInit == Is("PoolInit") /\ PoolInit(Ev.p, Ev.n)
+TPoolDestroy == Is("PoolDestroy") /\ PoolDestroy(Ev.p)
 
-TNext0 == \/ TReset \/ TJudge \/ TIgnore \/ TInfo \/ TDump \/ TFileStruct \/ TFileHash \/ TMkOther \/ TMkTable \/ TRm
-          \/ TWInit \/ TWAdd \/ TWClose \/ TROpen \/ TRDestroy \/ TRMeta
-          \/ TUInit \/ TUAdd \/ TUDestroy \/ TMInit \/ TMAdd \/ TMDestroy
-          \/ TOpen \/ TSeek \/ TNext \/ TClose \/ TSrcWrite
-          \/ TFsOpen \/ TFsClose \/ TClock \/ TSetFile \/ TFsInit \/ TFsDup \/ TFsReload \/ TFsReloadNow \/ TFsDestroy
-          \/ TSInit \/ TSAdd \/ TSIter \/ TSWrite \/ TSDestroy \/ TObs
+TApi == \/ TJudge \/ TIgnore \/ TInfo \/ TDump \/ TFileStruct \/ TFileHash \/ TMkOther \/ TMkTable \/ TRm
+        \/ TWInit \/ TWAdd \/ TWClose \/ TROpen \/ TRDestroy \/ TRMeta
+        \/ TUInit \/ TUAdd \/ TUDestroy \/ TMInit \/ TMAdd \/ TMDestroy
+        \/ TOpen \/ TSeek \/ TNext \/ TClose \/ TSrcWrite
+        \/ TFsOpen \/ TFsClose \/ TClock \/ TSetFile \/ TFsInit \/ TFsDup \/ TFsReload \/ TFsReloadNow \/ TFsDestroy
+        \/ TSInit \/ TSAdd \/ TSIter \/ TSWrite \/ TSDestroy \/ TPoolInit \/ TPoolDestroy
+TNext0 == TReset \/ TObs \/ TLeak \/ (TApi /\ UNCHANGED obase)
 
 TSpec == TInit /\ [][TNext0]_tvars
 
